@@ -307,7 +307,6 @@ impl Prop for C01 {
                 &format!("30 probe lines x configurations reachable through the setters with at most {} settings away from the default: decimal separator in [',', '.', '', '::'], thousands separator in ['.', ',', '', ' '], decimal digits in [2, 0, 9, 10, 20, 255] for numbers and percentages, both flags, money flags, default zone in [UTC, CET, EST, GMT+5:30, NST]", k),
                 move |ch| {
                     let probes = ["1 + 2", "1.234,5 * 2", "1,5", "1.5", "10%", "10 usd", "$1.000,50", "10 usd to try", "1,5 km to m", "2 mb to kb", "11:30 to EST", "today", "1/1/2021 + 1 month", "10 days", "0xFF to binary", "100 to hex", "[NUMBER:0.995]", "[NUMBER:-0.001]", "[NUMBER:1e21]", "[PERCENT:12.345]", "12,5 usd * 3", "1000000", "0,005", "999999,995", "99,995", "1 inch to cm", "1 lb to kg", "200 + 10%", "1619098200 to date", "11:30 + 13 hours"];
-                    let text = *ch.pick(&probes);
                     let dec = *ch.pick_dev(&[",", ".", "", "::"]);
                     let thou = *ch.pick_dev(&[".", ",", "", " "]);
                     let digits = *ch.pick_dev(&[2u8, 0, 9, 10, 20, 255]);
@@ -317,6 +316,8 @@ impl Prop for C01 {
                     let mremove = ch.choose_dev(2) == 1;
                     let mrounding = ch.choose_dev(2) == 0;
                     let tz = *ch.pick_dev(&[None, Some("CET"), Some("EST"), Some("GMT+5:30"), Some("NST")]);
+                    // the probe line is the innermost choice: consecutive cases share a configuration
+                    let text = *ch.pick(&probes);
                     let cfg = Cfg { dec: Some(dec.into()), thou: Some(thou.into()), num: Some((digits, remove, rounding)), pct: Some((pdigits, remove, rounding)), money: Some((mremove, mrounding)), tz: tz.map(|s| s.to_string()), ..Default::default() };
                     Some(Case { cfg, lang: "en".into(), now: None, text: text.into(), independent: false })
                 },
